@@ -438,6 +438,8 @@ struct QAlpha {
     tsyms: Vec<u8>,
     tmax: (usize, usize),
     pmax: (usize, usize),
+    /// largest q (the address table has 2^(bits*q) entries)
+    qmax: u32,
 }
 
 fn qalphas() -> Vec<QAlpha> {
@@ -447,8 +449,11 @@ fn qalphas() -> Vec<QAlpha> {
         tsyms: tsyms.to_vec(),
         tmax,
         pmax,
+        qmax: 3,
     };
-    vec![
+    let all: Vec<u8> = (0..=255u8).collect();
+    let wide = |name, syms: &[u8], tsyms: &[u8]| QAlpha { name, syms: syms.to_vec(), tsyms: tsyms.to_vec(), tmax: (3, 4), pmax: (2, 3), qmax: 2 };
+    let mut v = vec![
         qa("a", b"a", b"a", (10, 14), (7, 9)),
         qa("ab", b"ab", b"ab", (9, 10), (6, 7)),
         qa("abc", b"abc", b"abc", (6, 7), (5, 5)),
@@ -460,7 +465,13 @@ fn qalphas() -> Vec<QAlpha> {
         qa("dna::n_alphabet, texts over ANgt", b"ACGTNacgtn", b"ANgt", (5, 6), (4, 4)),
         qa("abcdefghi, texts over aei", b"abcdefghi", b"aei", (5, 6), (4, 5)),
         qa("17 symbols a..q, texts over aiq", b"abcdefghijklmnopq", b"aiq", (5, 6), (4, 4)),
-    ]
+    ];
+    // the widest alphabets: ranks up to 254 / 255 (the largest value a u8 rank can hold)
+    v.push(wide("255 symbols 01..ff, texts over 01,80,ff", &all[1..], &[0x01, 0x80, 0xFF]));
+    v.push(wide("256 symbols 00..ff, texts over 00,80,ff", &all, &[0x00, 0x80, 0xFF]));
+    v.push(wide("128 symbols 00..7f, texts over 00,40,7f", &all[..128], &[0x00, 0x40, 0x7F]));
+    v.push(wide("129 symbols 00..80, texts over 00,40,80", &all[..129], &[0x00, 0x40, 0x80]));
+    v
 }
 
 const QS: [u32; 3] = [1, 2, 3];
@@ -485,6 +496,9 @@ fn qgram_unit(tier: Tier, shard: usize, nshards: usize, ctx: &mut Ctx) {
                 continue;
             }
             for &q in &QS {
+                if q > qa.qmax {
+                    continue;
+                }
                 for mc in max_counts(tier) {
                     ctx.case(
                         || json!({"kind": "index", "alpha": show(&qa.syms), "text": show(t), "q": q, "max_count": mc}),
